@@ -8,6 +8,16 @@ from .. import core
 from .. import gen as G
 
 LEVEL = "proof"
+CLAIM = {
+    "text": "Lean theorems over ALL documents and pointers (no size bound): resolve_every_node(_escape), resolve_conforms "
+            "(value returned iff RFC 6901 evaluates, otherwise a pointer resolution error), exists_iff_resolve, proved for the "
+            "code-shaped model JP.Pointer; the model is tied to jsonpath/pointer.py on every run by differential execution over "
+            "an enumerated universe of locations and one-token mutations plus seeded random documents, and the implementation is "
+            "additionally compared with the executable RFC 6901 specification on every case.",
+    "note": "Trusted: Lean kernel; the hand-written model (validated differentially, sampling beyond the enumerated universe); "
+            "Python unicode-escape codec abstract; uri_decode not modelled; int-like names beyond +-(2^53-1) excluded (known finding).",
+    "technique": "Lean 4 refinement proof (model of pointer.py vs RFC 6901 evaluator) + differential correspondence",
+}
 LEAN_MODULES = []
 RULE = ("every location of every document of a structured universe (all key-pool names at depth 1-2, arrays of "
         "length 0-4, every JSON type) plus seeded random documents; for every location the RFC 6901 spelling and "
